@@ -48,6 +48,12 @@ func staticSites(s *schema.Schema) map[string]bool {
 				}
 			case "objlist":
 				r[t.QName+"."+f.Name+":count"] = true
+			case "bodylen":
+				r[t.QName+"."+f.Name+":bodylen"] = true
+			default:
+				if schema.Width(f.Kind) >= 2 && (strings.HasSuffix(f.Name, "Length") || strings.HasSuffix(f.Name, "Len")) {
+					r[t.QName+"."+f.Name+":scalar"] = true
+				}
 			}
 		}
 	}
@@ -76,10 +82,10 @@ func hostileValues(w int) []uint64 {
 // hostileCases builds the deterministic hostile input list of one decoder.
 func hostileCases(e *Env, t *schema.Type) []hcase {
 	var cs []hcase
-	nRand := e.N(120, 3000)
-	nMut := e.N(100, 3000)
-	nPre := e.N(60, 1000)
-	nKey := e.N(40, 600)
+	nRand := e.N(400, 6000)
+	nMut := e.N(400, 6000)
+	nPre := e.N(150, 2000)
+	nKey := e.N(100, 1200)
 	rng := gen.NewRng(e.Seed, "hostile", t.QName)
 	_ = gen.DefaultLens
 	// (a) uniformly random bytes
@@ -101,11 +107,22 @@ func hostileCases(e *Env, t *schema.Type) []hcase {
 		bases = append(bases, img)
 		// (d) site-directed: every count / text-length token
 		for _, tk := range toks {
-			if tk.Cat != "count" && tk.Cat != "strlen" {
+			lengthWord := tk.Cat == "bodylen" || (tk.Cat == "scalar" && tk.W >= 2 && (strings.HasSuffix(tk.Site, "Length") || strings.HasSuffix(tk.Site, "Len")))
+			if tk.Cat != "count" && tk.Cat != "strlen" && !lengthWord {
 				continue
 			}
 			site := tk.Site + ":" + tk.Cat
-			for _, hv := range hostileValues(tk.W) {
+			hvs := hostileValues(tk.W)
+			if lengthWord {
+				// a decoder that starts honouring the frame length must survive every absurd value,
+				// including the handful right below the wrap-around of "length + trailer"
+				max := uint64(1)<<(8*uint(tk.W)) - 1
+				for d := uint64(2); d <= 8; d++ {
+					hvs = append(hvs, max-d)
+				}
+				hvs = append(hvs, 1<<31-4, 1<<31+4, uint64(len(img)), uint64(len(img))+1, 1<<24)
+			}
+			for _, hv := range hvs {
 				for _, le := range []bool{t.LE, !t.LE} {
 					tokb := refInt(tk.W, hv, le)
 					head := append(append([]byte(nil), img[:tk.Off]...), tokb...)
@@ -362,7 +379,7 @@ func hostile(e *Env) {
 		return
 	}
 	r := e.R
-	r.Rule("every decoder (170 types) × hostile inputs, case i a pure function of (seed, type, i): (a) uniformly random bytes of 0..4096 bytes; (b) strict prefixes of valid images; (c) valid images with 1..8 bit flips / byte substitutions; (d) site-directed: for EVERY text-length / list-count token of valid images (one base image per registered discriminator key) the token is set to each of {max, max-1, 2^31, 2^31-1, 2^16, 0x0100, ...} in the module's byte order and in the opposite one, followed by nothing, 1 byte, 16 bytes, or the valid remainder; (e) unknown and near-miss discriminators; plus legitimate large images (1000- and 65535-element lists actually present) that must stay inside the bound. distinct_nontrivial = distinct non-empty inputs")
+	r.Rule("every decoder (170 types) × hostile inputs, case i a pure function of (seed, type, i): (a) uniformly random bytes of 0..4096 bytes; (b) strict prefixes of valid images; (c) valid images with 1..8 bit flips / byte substitutions; (d) site-directed: for EVERY text-length / list-count token and every frame body-length word of valid images (one base image per registered discriminator key) the token is set to each of {max, max-1, 2^31, 2^31-1, 2^16, 0x0100, ...} in the module's byte order and in the opposite one, followed by nothing, 1 byte, 16 bytes, or the valid remainder; (e) unknown and near-miss discriminators; plus legitimate large images (1000- and 65535-element lists actually present) that must stay inside the bound. distinct_nontrivial = distinct non-empty inputs")
 	if r.Prop == "C09" {
 		r.Explain(fmt.Sprintf("Oracle: Decode returns normally (nil or error): no recovered panic; the child process (RLIMIT_AS 2 GiB, single goroutine) does not die (fatal out-of-memory / stack exhaustion bypass recover and are seen as process death with the pre-logged in-flight input as witness); step proxy: heap objects allocated during the call <= %d + %d*len(input) (every loop iteration of every reader allocates at least once, so this bounds the number of reader steps independently of machine load); a wall-clock watchdog only triggers an isolated re-run and is never a verdict by itself.", stepConst, stepPerByte))
 	} else {
@@ -417,7 +434,13 @@ func hostile(e *Env) {
 	}
 	sort.Strings(missed)
 	r.Set("length_and_count_sites_in_schema", len(static))
-	r.Set("length_and_count_sites_hit", len(hit))
+	nhit := 0
+	for s := range static {
+		if hit[s] {
+			nhit++
+		}
+	}
+	r.Set("length_and_count_sites_hit", nhit)
 	if r.Prop == "C10" {
 		r.Set("worst_observed_alloc_over_bound", map[string]any{"ratio": worstA, "case": worstAC})
 	} else {
